@@ -724,8 +724,8 @@ func (cr *causeRun) runCase(tw *trace.W, st *drv.Stats, id string, p plan) {
 	}
 	obs := fmt.Sprintf("kept total=%d ex=%d pa=%d wd=%d,%d msg=%d,%d", len(out), keptEx, keptPa, wdLen, b2i(wdCrop), msgLen, b2i(msgCrop))
 	tw.Obs("%s", obs)
-	tw.Comment("chk kind=kept outvalid=%d size=%d fields=%d why=%s inex=%d inpa=%d inwd=%d inmsg=%d",
-		b2i(outValid), len(out), b2i(fieldsOK), orDash(why), len(ec.Exceptions), len(ec.Paths), len(ec.WorkingDir), len(ec.Message))
+	tw.Comment("chk kind=kept docvalid=%d outvalid=%d size=%d fields=%d why=%s inex=%d inpa=%d inwd=%d inmsg=%d",
+		b2i(docValid), b2i(outValid), len(out), b2i(fieldsOK), orDash(why), len(ec.Exceptions), len(ec.Paths), len(ec.WorkingDir), len(ec.Message))
 
 	// outcome class (for the distribution only)
 	same, _ := json.Marshal(ec)
